@@ -169,6 +169,25 @@ fn main() {
             let f = RequestHttpFrontend { cluster_id: Some("c1".into()), address: SocketAddress::new_v4(127, 0, 0, 1, 8080), hostname: host.into(), path: pr, position: RulePosition::Tree.into(), ..Default::default() };
             u2.push(RequestType::AddHttpFrontend(f).into());
         }
+        // frontends with EVERY optional field present: once with "falsy" values that are not the same thing as an absent
+        // field (an explicit HSTS disable, required_auth = false, the default enum values spelt out, port 0, empty strings),
+        // once with non-default values; on the HTTP and on the HTTPS listener
+        {
+            use sozu_command_lib::proto::command::{Header, HeaderPosition, HstsConfig, RedirectPolicy, RedirectScheme};
+            let falsy = RequestHttpFrontend { cluster_id: Some("c1".into()), address: SocketAddress::new_v4(127, 0, 0, 1, 8080), hostname: "falsy.example".into(), path: PathRule::prefix("/f".to_string()),
+                method: Some("GET".into()), position: RulePosition::Tree.into(), tags: BTreeMap::new(), redirect: Some(RedirectPolicy::Forward as i32), required_auth: Some(false),
+                redirect_scheme: Some(RedirectScheme::UseSame as i32), redirect_template: None, rewrite_host: None, rewrite_path: None, rewrite_port: None, headers: vec![],
+                hsts: Some(HstsConfig { enabled: Some(false), ..Default::default() }) };
+            let truthy = RequestHttpFrontend { cluster_id: Some("c1".into()), address: SocketAddress::new_v4(127, 0, 0, 1, 8080), hostname: "truthy.example".into(), path: PathRule::prefix("/t".to_string()),
+                method: Some("POST".into()), position: RulePosition::Pre.into(), tags: tags.clone(), redirect: Some(RedirectPolicy::Permanent as i32), required_auth: Some(true),
+                redirect_scheme: Some(RedirectScheme::UseHttps as i32), redirect_template: None, rewrite_host: Some("x.example".into()), rewrite_path: Some("/p".into()), rewrite_port: Some(8081),
+                headers: vec![Header { position: HeaderPosition::Request as i32, key: "X-Added".into(), val: "1".into() }, Header { position: HeaderPosition::Both as i32, key: "X-Gone".into(), val: String::new() }],
+                hsts: Some(HstsConfig { enabled: Some(true), max_age: Some(100), include_subdomains: Some(true), ..Default::default() }) };
+            for f in [falsy, truthy] {
+                u2.push(RequestType::AddHttpFrontend(f.clone()).into());
+                u2.push(RequestType::AddHttpsFrontend(RequestHttpFrontend { address: SocketAddress::new_v4(127, 0, 0, 1, 8443), ..f }).into());
+            }
+        }
         u2.push(RequestType::AddBackend(AddBackend { cluster_id: "c1".into(), backend_id: "b9".into(), address: SocketAddress::new_v4(10, 0, 0, 9, 9000), sticky_id: Some("sticky-9".into()),
                                                     load_balancing_parameters: Some(LoadBalancingParams { weight: 7 }), backup: Some(true) }).into());
     }
